@@ -581,6 +581,8 @@ class TdmsChannel(object):
         if self.data_type is types.String:
             return np.dtype('O')
         elif self.data_type is types.TimeStamp:
+            if self._raw_timestamps:
+                return np.dtype([('second_fractions', 'uint64'), ('seconds', 'int64')])
             return np.dtype('<M8[us]')
         if self.data_type is not None and self.data_type.nptype is not None:
             return self.data_type.nptype
